@@ -39,7 +39,8 @@ class StepLimit(BaseException):
 
 
 class TS:
-    __slots__ = ('name', 'sem', 'pred', 'desc', 'done', 'prio', 'real')
+    __slots__ = ('name', 'sem', 'pred', 'desc', 'done', 'prio', 'real', 'timed',
+                 'timedout')
 
     def __init__(self, name):
         self.name = name
@@ -49,6 +50,8 @@ class TS:
         self.done = False
         self.prio = 0
         self.real = None
+        self.timed = False       # blocked in a wait that has a timeout
+        self.timedout = False
 
 
 class Sched:
@@ -68,6 +71,7 @@ class Sched:
         self.shim_ops = collections.Counter()
         self.max_enabled = 1
         self.choices = []                   # (n_enabled, chosen index, preemptive?)
+        self.timeouts = 0                   # timed waits that expired
 
     # ---- registration
     def register_main(self):
@@ -85,8 +89,11 @@ class Sched:
 
     # ---- core
     def enabled(self):
+        # A wait with a timeout may expire at any moment (the other threads can
+        # be arbitrarily slow), so a timed waiter is always enabled: when it is
+        # chosen while its condition does not hold, the wait times out.
         return [t for t in self.threads
-                if not t.done and (t.pred is None or t.pred())]
+                if not t.done and (t.pred is None or t.timed or t.pred())]
 
     def _handover(self, me, nxt):
         self.cur = nxt
@@ -133,17 +140,24 @@ class Sched:
     def preempt(self, loc=None):
         self.switch(self.me(), True)
 
-    def block_until(self, pred, desc):
+    def block_until(self, pred, desc, timed=False):
+        """Returns True when pred() holds, False when a timed wait expired."""
         if pred():
-            return
+            return True
         me = self.me()
         me.pred = pred
         me.desc = desc
+        me.timed = timed
         try:
             self.switch(me, False)
+            ok = bool(pred())
         finally:
             me.pred = None
             me.desc = None
+            me.timed = False
+        if not ok:
+            self.timeouts += 1
+        return ok
 
     def thread_exit(self, me):
         me.done = True
@@ -243,7 +257,8 @@ class SThread:
 
     def join(self, timeout=None):
         S.shim_ops['thread.join'] += 1
-        S.block_until(lambda: self.ts.done, f'join {self.ts.name}')
+        S.block_until(lambda: self.ts.done, f'join {self.ts.name}',
+                      timed=timeout is not None)
 
     def is_alive(self):
         return not self.ts.done
@@ -270,7 +285,9 @@ class SQueue:
         if self.full():
             if not block:
                 raise _rq.Full
-            S.block_until(lambda: not self.full(), 'put(full)')
+            if not S.block_until(lambda: not self.full(), 'put(full)',
+                                 timed=timeout is not None):
+                raise _rq.Full
         self.d.append(item)
 
     def get(self, block=True, timeout=None):
@@ -278,7 +295,9 @@ class SQueue:
         if not self.d:
             if not block:
                 raise _rq.Empty
-            S.block_until(lambda: bool(self.d), 'get(empty)')
+            if not S.block_until(lambda: bool(self.d), 'get(empty)',
+                                 timed=timeout is not None):
+                raise _rq.Empty
         return self.d.popleft()
 
     def put_nowait(self, item):
@@ -291,7 +310,8 @@ class SQueue:
 class SFuture(_cf.Future):
     def result(self, timeout=None):
         S.shim_ops['future.result'] += 1
-        S.block_until(self.done, 'future.result')
+        if not S.block_until(self.done, 'future.result', timed=timeout is not None):
+            raise _cf.TimeoutError()
         return super().result(timeout=0)
 
 
@@ -360,17 +380,138 @@ class SExecutor:
         return False
 
 
+class SLock:
+    """Cooperative lock / semaphore / event / condition: a thread that has to
+    wait hands the baton on instead of blocking the process."""
+
+    def __init__(self, value=1, reentrant=False):
+        self.value = value
+        self.reentrant = reentrant
+        self.owner = None
+        self.depth = 0
+
+    def acquire(self, blocking=True, timeout=None):
+        S.shim_ops['lock.acquire'] += 1
+        me = S.me()
+        if self.reentrant and self.owner is me:
+            self.depth += 1
+            return True
+        if self.value <= 0:
+            if not blocking or timeout == 0:
+                return False
+            ok = S.block_until(lambda: self.value > 0, 'lock.acquire',
+                               timed=timeout is not None and timeout >= 0)
+            if not ok:
+                return False
+        self.value -= 1
+        self.owner = me
+        self.depth = 1
+        return True
+
+    def release(self, n=1):
+        S.shim_ops['lock.release'] += 1
+        if self.reentrant and self.depth > 1:
+            self.depth -= 1
+            return
+        self.value += n
+        self.owner = None
+
+    def locked(self):
+        return self.value <= 0
+
+    __enter__ = acquire
+
+    def __exit__(self, *a):
+        self.release()
+        return False
+
+
+def SRLock():
+    return SLock(1, reentrant=True)
+
+
+def SSemaphore(value=1):
+    return SLock(value)
+
+
+class SEvent:
+    def __init__(self):
+        self.flag = False
+
+    def is_set(self):
+        return self.flag
+
+    def set(self):
+        S.shim_ops['event.set'] += 1
+        self.flag = True
+
+    def clear(self):
+        self.flag = False
+
+    def wait(self, timeout=None):
+        S.shim_ops['event.wait'] += 1
+        if self.flag:
+            return True
+        return S.block_until(lambda: self.flag, 'event.wait',
+                             timed=timeout is not None)
+
+
+class SCondition:
+    def __init__(self, lock=None):
+        self.lock = lock or SRLock()
+        self.gen = 0
+        self.acquire = self.lock.acquire
+        self.release = self.lock.release
+
+    def __enter__(self):
+        return self.lock.acquire()
+
+    def __exit__(self, *a):
+        self.lock.release()
+        return False
+
+    def wait(self, timeout=None):
+        g = self.gen
+        self.lock.release()
+        ok = S.block_until(lambda: self.gen != g, 'condition.wait',
+                           timed=timeout is not None)
+        self.lock.acquire()
+        return ok
+
+    def wait_for(self, predicate, timeout=None):
+        while not predicate():
+            if not self.wait(timeout):
+                return predicate()
+        return True
+
+    def notify(self, n=1):
+        self.gen += 1
+
+    notify_all = notify
+
+
 class _NS:
-    def __init__(self, **kw):
+    """Namespace that overrides some names of a real module."""
+
+    def __init__(self, _base=None, **kw):
         self.__dict__.update(kw)
+        self.__dict__['_base'] = _base
+
+    def __getattr__(self, name):
+        base = self.__dict__.get('_base')
+        if base is not None:
+            return getattr(base, name)
+        raise AttributeError(name)
 
 
 def install(pu):
     """Replace the primitives inside lazy_dataset.parallel_utils."""
-    pu.queue = _NS(Queue=SQueue, Empty=_rq.Empty, Full=_rq.Full)
-    pu.threading = _NS(Thread=SThread)
+    pu.queue = _NS(_rq, Queue=SQueue, SimpleQueue=SQueue, LifoQueue=None)
+    pu.threading = _NS(threading, Thread=SThread, Lock=SLock, RLock=SRLock,
+                       Semaphore=SSemaphore, BoundedSemaphore=SSemaphore,
+                       Event=SEvent, Condition=SCondition)
     pu.concurrent = _NS(futures=_NS(
-        ThreadPoolExecutor=SExecutor, ProcessPoolExecutor=None,
+        _cf, ThreadPoolExecutor=SExecutor, ProcessPoolExecutor=None,
         Future=SFuture, Executor=SExecutor))
 
 
